@@ -53,3 +53,50 @@ def v3_next_ordinal_not_next_index(scenario, trace, line):
         if t["phase"] == "Change" and t["cc"] == "Complete" and t["ca"] == "Pending" and t["cord"] == aord + 1 and t["i"] != j + 1:
             return True
     return False
+
+
+def v3_torn_applied_values(scenario, trace, line):
+    """F47: the applied value map (its own Atomix map) already holds the values of an apply whose version-checked
+    configuration entry write was refused (write conflict) or has not happened yet: at the offending line some transaction's
+    apply (change or rollback) is IN PROGRESS and every applied value that differs from what the applied revision's
+    transaction set is exactly that in-progress apply's value for the path."""
+    if not trace or line >= len(trace):
+        return False
+    L = trace[line]
+    av = L["cfg"]["avalues"]
+    arev = L["cfg"]["arev"]
+    txs = {t["i"]: t for t in L["txs"]}
+    if arev not in txs:
+        return False
+    inflight = {}
+    for t in L["txs"]:
+        if t["ca"] == "InProgress":
+            inflight.update(t["values"])
+        if t["ra"] == "InProgress":
+            inflight.update(t["rvalues"])
+    if not inflight:
+        return False
+    diff = [p for p, v in txs[arev]["values"].items() if av.get(p) != v]
+    return bool(diff) and all(p in inflight and av.get(p) == inflight[p] for p in diff)
+
+
+def v3_next_ordinal_not_next_index(scenario, trace, line):  # noqa: F811 (supersedes the first version above)
+    """F46: (live mode) at the offending fixed point some transaction k holds the next ordinal to be applied (its change
+    apply is Pending with cord = applied ordinal + 1, or its rollback apply is Pending with rord = applied ordinal + 1),
+    the apply stage that ended last was the ROLLBACK of a transaction j (its rollback ordinal is the applied ordinal) and
+    k is neither j nor j+1: the requeue at the end of j's rollback names j+1, the configuration event names the targets and
+    the last indexes - nothing names k."""
+    if not trace or line >= len(trace):
+        return False
+    L = trace[line]
+    aord = L["cfg"]["aord"]
+    ended = [t for t in L["txs"] if t["phase"] == "Rollback" and t["rord"] == aord and t["ra"] in ("Complete", "Failed")]
+    if not ended:
+        return False
+    j = ended[0]["i"]
+    for t in L["txs"]:
+        nxt = (t["cc"] == "Complete" and t["ca"] == "Pending" and t["cord"] == aord + 1) or \
+              (t["phase"] == "Rollback" and t["rc"] == "Complete" and t["ra"] == "Pending" and t["rord"] == aord + 1)
+        if nxt and t["i"] not in (j, j + 1):
+            return True
+    return False
